@@ -1,6 +1,7 @@
 import SfxModel.DriverArith
 import SfxModel.DriverWrap
 import SfxModel.DriverCodec
+import SfxModel.DriverConv
 /-
   Main.lean — line-protocol driver.  stdin: the Rust harness' output, one `request => answer` per line.
   For every line: recompute the answer with the model (projected to the build profile given as the first
@@ -30,10 +31,15 @@ def bump (ops : List (String × Nat)) (op : String) : List (String × Nat) :=
 def codecOps : List String := ["encode", "int_encode", "encoded_size", "max_encoded_len", "decode", "to_le_bytes", "to_be_bytes",
   "to_ne_bytes", "from_le_bytes", "from_be_bytes", "from_ne_bytes", "bits_roundtrip", "wrapping_bits"]
 
+def isConvOp (op : String) : Bool :=
+  op.startsWith "cv_" || op.startsWith "cmp_" || op.startsWith "icv_" || op.startsWith "icmp" || op.startsWith "fcv_" ||
+  op.startsWith "fcmp" || op.startsWith "same_" || op == "h_to_fixed_helper" || op == "h_to_float_kind" || op == "h_from_to_float"
+
 /-- model answer, already rendered for the profile (`none`: no model for this request) -/
 def modelOf (prof : Profile) (L : Layout) (op : String) (args : List String) : Option String :=
   if op == "wprog" then (DriverWrap.run L prof args).map (·.1)
   else if codecOps.contains op then DriverCodec.model L op args
+  else if isConvOp op then DriverConv.model prof L op args
   else match args.mapM String.toInt? with
   | some ints => (DriverArith.model L (DriverArith.baseOp op) ints).map (Outcome.render prof)
   | none => none
@@ -42,15 +48,16 @@ def modelOf (prof : Profile) (L : Layout) (op : String) (args : List String) : O
 def specOf (prof : Profile) (L : Layout) (op : String) (args : List String) : Option String :=
   if op == "wprog" then (DriverWrap.run L prof args).map (·.2)
   else if codecOps.contains op then DriverCodec.spec L op args
+  else if isConvOp op then DriverConv.spec prof L op args
   else match args.mapM String.toInt? with
   | some ints => (DriverArith.spec L (DriverArith.baseOp op) ints).map (Outcome.render prof)
   | none => none
 
-def isSpecial (ans : String) : Bool := ans == "P" || ans == "N" || ans.endsWith ",1" || ans.endsWith ";P"
+def isSpecial (ans : String) : Bool := ans == "P" || ans == "N" || ans == "U" || ans.endsWith ",1" || ans.endsWith ";P"
 
 def argsInRange (L : Layout) (op : String) (args : List String) : Bool :=
   -- operands of typed arithmetic requests are bit patterns of the layout (the driver rejects others)
-  if op.startsWith "h_div_rem_from" || op == "wprog" || op == "decode" || op.startsWith "from_" then true
+  if op.startsWith "h_div_rem_from" || op == "wprog" || op == "decode" || op.startsWith "from_" || isConvOp op then true
   else args.all (fun a => match a.toInt? with | some i => decide (inRange L i) | none => true)
 
 partial def loop (prof : Profile) (h : IO.FS.Stream) (out : IO.FS.Stream) (st : Stats) : IO Stats := do
